@@ -426,16 +426,31 @@ theorem euler_roundtrip_locked {T : Trig R} (hT : TrigOK T) {C : Cmp R} (hC : Cm
     · rw [if_neg e] at hlock
       exact euler_tb_locked hT hC lim hlim (Gen.M4.zyx r) a2 a1 a0 h2 h1 h0 (Ne.symm h12) (Ne.symm h01) (Ne.symm e) hlock
 
-/-- the entries of `rotateE(r)` that `eulerAngles` reads (three different axes) are `sin β` (middle angle, together with
-`c = |cos β|`) and `cos β·(sin γ, cos γ)` (last angle); likewise `cos β·(sin α, cos α)` in the last column -/
-theorem euler_arguments (T : Trig R) (r : V3 R) (a0 a1 a2 : Nat) (h0 : a0 < 3) (h1 : a1 < 3) (h2 : a2 < 3)
-    (h01 : a0 ≠ a1) (h12 : a1 ≠ a2) (h02 : a0 ≠ a2) :
+/-- what `eulerAngles` reads from a matrix `M = rotateE(r)` (three different axes): `-s·M(a0,a2) = sin β` and
+`c² = M(a0,a0)² + M(a0,a1)² = cos² β` for the middle angle `atan2(sin β, c)`, and `s·M(a0,a1) = cos β sin γ`,
+`M(a0,a0) = cos β cos γ` for the last angle.  (The first angle is read from `M · rotate(a2, -r0)`: lemma `tb_strip`.) -/
+theorem euler_arguments (T : Trig R) (hu : ∀ x, T.cos x * T.cos x + T.sin x * T.sin x = 1) (r : V3 R)
+    (a0 a1 a2 : Nat) (h0 : a0 < 3) (h1 : a1 < 3) (h2 : a2 < 3) (h01 : a0 ≠ a1) (h12 : a1 ≠ a2) (h02 : a0 ≠ a2) :
     (-(tbSign a0 a1 : R)) * Gen.M4.rotateE (fld R) T r a0 a1 a2 a0 a2 = T.sin r.y ∧
-    tbSign a0 a1 * Gen.M4.rotateE (fld R) T r a0 a1 a2 a1 a2 = T.sin r.x * T.cos r.y ∧
-    Gen.M4.rotateE (fld R) T r a0 a1 a2 a2 a2 = T.cos r.x * T.cos r.y ∧
+    Gen.M4.rotateE (fld R) T r a0 a1 a2 a0 a0 * Gen.M4.rotateE (fld R) T r a0 a1 a2 a0 a0 +
+      Gen.M4.rotateE (fld R) T r a0 a1 a2 a0 a1 * Gen.M4.rotateE (fld R) T r a0 a1 a2 a0 a1 = T.cos r.y * T.cos r.y ∧
     tbSign a0 a1 * Gen.M4.rotateE (fld R) T r a0 a1 a2 a0 a1 = T.sin r.z * T.cos r.y ∧
-    Gen.M4.rotateE (fld R) T r a0 a1 a2 a0 a0 = T.cos r.z * T.cos r.y :=
-  tb_entries T r a0 a1 a2 h0 h1 h2 h01 h12 h02
+    Gen.M4.rotateE (fld R) T r a0 a1 a2 a0 a0 = T.cos r.z * T.cos r.y := by
+  obtain ⟨e1, -, -, e4, e5⟩ := tb_entries T r a0 a1 a2 h0 h1 h2 h01 h12 h02
+  refine ⟨e1, ?_, e4, e5⟩
+  have hs2 : (tbSign a0 a1 : R) * tbSign a0 a1 = 1 := by
+    rcases tbSign_sq (R := R) a0 a1 with h | h <;> rw [h] <;> ring
+  have huz := hu r.z
+  set M := Gen.M4.rotateE (fld R) T r a0 a1 a2
+  have e4' : M a0 a1 * M a0 a1 = (T.sin r.z * T.cos r.y) * (T.sin r.z * T.cos r.y) := by
+    rw [← e4]; linear_combination (M a0 a1 * M a0 a1) * (-hs2)
+  rw [e4', e5]; linear_combination (T.cos r.y * T.cos r.y) * huz
+
+/-! Not proved (stated in LEVEL_NOTE): the band `0 < c ≤ lim` between the two theorems above (`euler_roundtrip` needs
+`lim < c`, `euler_roundtrip_locked` needs `c = 0`).  There `r0 = 0` is used and the result is an approximation; the
+reviewer's suggested statement is: for `0 ≤ c ≤ lim` every entry of `rotateE(eulerAngles(rotateE r)) − rotateE r` has
+absolute value `≤ 2c` (over the ordered field, from `TrigOK` alone).  In floating point the band is `c ≤ 16 eps` and the
+numeric check bounds the error there by `64 eps`. -/
 
 end euler
 
